@@ -17,6 +17,7 @@ type Version struct {
 	ReqNs  int64 // request_time, ns since T0
 	RespNs int64 // response_time, ns since T0
 	Why    string
+	Req    http.Header // header of the request that obtained / last validated it
 }
 
 func floorSec(ns int64) Sec {
